@@ -887,6 +887,16 @@ int main(int argc, char** argv) {
                     ++i;
                 }
             }
+            else if (c == "loadbytes") {
+                // loadbytes <hex> : deserialise an archive given as bytes (a golden file written by the pinned version)
+                std::string bytes;
+                for (size_t i = 0; i + 1 < t[1].size(); i += 2) bytes.push_back((char)strtoul(t[1].substr(i, 2).c_str(), nullptr, 16));
+                std::stringstream in(bytes);
+                Archive b = Archive::deserialize(in);
+                std::string o = "LB n=" + std::to_string(b.shapes.size());
+                for (auto& sh : b.shapes) { Ctx cy; cy.vars.clear(); o += " dump=" + dump_dag(cy, sh.tree); }
+                out(o);
+            }
             else if (c == "solve") {
                 // solve h gas px py pz nmask (maskvar)* (initial value per case variable, hex)*
                 Tree tr = H(t[1]);
@@ -1164,6 +1174,18 @@ int main(int argc, char** argv) {
                 for (size_t k = 0; k < cx.vars.size(); ++k) vars[cx.vars[k].id()] = 0.25f * (k + 1);
                 Eigen::Vector3f p(of_hex32(t[2]), of_hex32(t[3]), of_hex32(t[4]));
                 Evaluator e(tr, vars);
+                {   // the evaluator is a long-lived one, as in the meshers: an earlier feature query and a batch of
+                    // derivatives at other positions leave their values in the array slots
+                    Eigen::Vector3f q0 = p.array() * 2.5f + Eigen::Array3f(3.0f, -2.0f, 1.0f);
+                    (void)e.features(q0);
+                    // ... and one on the diagonal through p, where ties of the same min / max clauses replicate
+                    // several features (slot-replication state of the coordinate rows)
+                    (void)e.features(p + Eigen::Vector3f(2.0f, 2.0f, 2.0f));
+                    (void)e.features(p - Eigen::Vector3f(0.75f, 0.75f, 0.75f));
+                    for (int k = 0; k < 8; ++k) e.set(q0 + Eigen::Vector3f(1.0f * k, 2.0f * k, -1.0f * k), k);
+                    (void)e.derivs(8);
+                    std::fesetround(FE_TONEAREST);
+                }
                 auto fs = e.features(p);
                 float val = e.value(p);
                 bool inside = e.isInside(p);
